@@ -18,7 +18,30 @@ SplitEv(e) ==
                                 # Cardinality({j \in 1..Len(ps) : e.primaries[j].digest = e.primaries[k].digest /\ e.primaries[j].secret = e.primaries[k].secret
                                                                   /\ e.counts[j] = e.counts[k]}) THEN "C14.split"
   ELSE "ok"
-Judge(e) == IF e.k = "split" THEN SplitEv(e) ELSE "harness.unknown-event"
+\* ---- C14.association on import: which signature packets belong to which component of a transferable key (RFC 4880 11.1) --------
+\* A signature packet belongs to the closest preceding non-signature packet (trust packets are transparent). A component the
+\* reader cannot use (a key packet of another version, a packet of an unknown tag) is skipped TOGETHER with its signatures.
+RECURSIVE GroupsFrom(_, _, _)
+GroupsFrom(pk, k, acc) ==
+  IF k > Len(pk) THEN acc
+  ELSE IF pk[k].tag = 12 THEN GroupsFrom(pk, k + 1, acc)
+  ELSE IF pk[k].tag = 2 THEN
+       (IF acc = <<>> THEN GroupsFrom(pk, k + 1, acc)
+        ELSE GroupsFrom(pk, k + 1, [acc EXCEPT ![Len(acc)].sigs = @ \cup {pk[k].body}]))
+  ELSE GroupsFrom(pk, k + 1, Append(acc, [tag |-> pk[k].tag, body |-> pk[k].body, sigs |-> {}]))
+Groups(blob) == GroupsFrom(Split(blob).pkts, 1, <<>>)
+Readable(g) == g.tag \in {13, 17} \/ (g.tag \in {5, 6, 7, 14} /\ Len(g.body) > 0 /\ g.body[1] = 4 /\ PubEnd(g.body) # 0)
+CompOf(g) == IF g.tag \in {13, 17} THEN g.body ELSE PubPortion(g.body)
+Assoc(blob) == LET gs == SelectSeq(Groups(blob), Readable) IN {[comp |-> CompOf(gs[k]), sigs |-> gs[k].sigs] : k \in 1..Len(gs)}
+SeqSet(q) == {q[k] : k \in 1..Len(q)}
+AssocEv(e) ==
+  IF ~Split(e.blob).ok THEN "harness.assoc-blob"
+  ELSE IF e.raised THEN "C14.association"
+  ELSE IF {[comp |-> e.got[k].comp, sigs |-> SeqSet(e.got[k].sigs)] : k \in 1..Len(e.got)} # Assoc(e.blob) THEN "C14.association"
+  ELSE IF \E k \in 1..Len(e.got) : Len(e.got[k].sigs) # Cardinality(SeqSet(e.got[k].sigs)) THEN "C14.association"   \* none held twice
+  ELSE IF ~Split(e.reexport).ok \/ Assoc(e.reexport) # Assoc(e.blob) THEN "C14.association-export"
+  ELSE "ok"
+Judge(e) == IF e.k = "split" THEN SplitEv(e) ELSE IF e.k = "assoc" THEN AssocEv(e) ELSE "harness.unknown-event"
 Init == i = 1
 Next == /\ i <= Len(Events) + 1
         /\ IF i = Len(Events) + 1 THEN PrintT(<<"DONE", Len(Events)>>)
